@@ -170,3 +170,17 @@ def relevant_pc(pc, exprs):
         if cv and all(k in vs for k in cv):
             out.append(c)
     return out
+
+
+def depends_on(ex, expr, var, depth=0):
+    """does expr depend on var, looking through quotient variables introduced by the executor"""
+    if depth > 20:
+        return False
+    for v in vars_of(expr).values():
+        if v.eq(var):
+            return True
+        qi = ex.quots.get(v.get_id())
+        if qi is not None:
+            if depends_on(ex, qi[0], var, depth + 1) or depends_on(ex, qi[1], var, depth + 1):
+                return True
+    return False
